@@ -97,6 +97,15 @@ class UserAddEdge(ActionGroup):
             self.actions.append(
                 UpdateTrackIDs(self.tracks, successor, self.tracks.get_next_track_id())
             )
+            # the target and everything downstream of it joins the source's lineage
+            self.actions.append(
+                UpdateTrackIDs(
+                    self.tracks,
+                    target,
+                    self.tracks.get_track_id(target),
+                    self.tracks.get_lineage_id(source),
+                )
+            )
         else:
             raise InvalidActionError(
                 f"Expected degree of 0 or 1 before adding edge, got {out_degree_source}"
